@@ -161,7 +161,21 @@ fn run_m<M: RawMutex + 'static, A: RingBuf<Item = Tagged> + 'static>(cfg: &Cfg, 
     let shared = cfg.flavour >= FL_SHARED;
     let cap = cfg.x as usize;
     let chan_owner: Chan<M, A> = if shared {
-        let (tx, rx) = sh::generic_channel::<M, Tagged, A>(cap);
+        // the parking_lot + GrowingHeapBuf instantiation is what `channel()` and
+        // `unbuffered_channel()` build: go through them where the types coincide
+        let conv: Option<(Tx<M, A>, Rx<M, A>)> = if std::any::TypeId::of::<(M, A)>() == std::any::TypeId::of::<(PlLock, GrowingHeapBuf<Tagged>)>() {
+            if cap == 0 {
+                retype(sh::unbuffered_channel::<Tagged>())
+            } else {
+                retype(sh::channel::<Tagged>(cap))
+            }
+        } else {
+            None
+        };
+        let (tx, rx) = match conv {
+            Some(p) => p,
+            None => sh::generic_channel::<M, Tagged, A>(cap),
+        };
         Chan::S { tx: RefCell::new(vec![tx]), rx: RefCell::new(vec![rx]) }
     } else {
         Chan::B(GenericChannel::with_capacity(cap))
@@ -645,6 +659,9 @@ fn step<M: RawMutex + 'static, A: RingBuf<Item = Tagged> + 'static>(c: &mut Ctx<
                             }
                             Err(e) => {
                                 let full = matches!(e, TrySendError::Full(_));
+                                if e.is_full() != full || e.is_closed() == full {
+                                    run.violate("C11", "error-accessor", format!("{:?}: is_full() == {} and is_closed() == {}", e, e.is_full(), e.is_closed()));
+                                }
                                 let back = e.into_inner();
                                 run.note(|| format!("try_send(v{}) -> {}(v{})", id, if full { "Full" } else { "Closed" }, back.id));
                                 if back.id != id {
@@ -671,6 +688,9 @@ fn step<M: RawMutex + 'static, A: RingBuf<Item = Tagged> + 'static>(c: &mut Ctx<
             });
             match r {
                 Some(Some(res)) => match res {
+                    Err(e) if e.is_empty() != (e == TryReceiveError::Empty) || e.is_closed() != (e == TryReceiveError::Closed) => {
+                        run.violate("C11", "error-accessor", format!("{:?}: is_empty() == {} and is_closed() == {}", e, e.is_empty(), e.is_closed()));
+                    }
                     Ok(v) => {
                         run.note(|| format!("try_receive() -> Ok(v{})", v.id));
                         if notified_exists {
@@ -707,6 +727,9 @@ fn step<M: RawMutex + 'static, A: RingBuf<Item = Tagged> + 'static>(c: &mut Ctx<
                 Some(Some(status)) => {
                     run.note(|| format!("close() -> {:?}", status));
                     let newly = status == CloseStatus::NewlyClosed;
+                    if status.is_newly_closed() != newly || status.is_already_closed() == newly {
+                        run.violate("C11", "status-accessor", format!("{:?}: is_newly_closed() == {} and is_already_closed() == {}", status, status.is_newly_closed(), status.is_already_closed()));
+                    }
                     if newly == c.m.closed {
                         run.violate("C11", "close-status", format!("close() returned {:?} on a channel that was {}", status, if c.m.closed { "already closed" } else { "open" }));
                     }
